@@ -74,7 +74,7 @@ def gen_opts(rng):
     return ";".join(out)
 
 
-def gen_msg(rng, nrec=None, big=False, wellformed=True):
+def gen_msg(rng, nrec=None, big=False, wellformed=True, counts=None):
     ng = NameGen(rng)
     if rng.random() < 0.1:
         # names extended one label at a time: compression pointer chains as deep as the names are long
@@ -88,9 +88,10 @@ def gen_msg(rng, nrec=None, big=False, wellformed=True):
     secs = []
     if nrec is None:
         nrec = rng.choice([0, 1, 2, 3, 5, 8, 12])
-    counts = [0, 0, 0]
-    for _ in range(nrec):
-        counts[rng.choice([0, 0, 1, 2])] += 1
+    if counts is None:
+        counts = [0, 0, 0]
+        for _ in range(nrec):
+            counts[rng.choice([0, 0, 1, 2])] += 1
     for c in counts:
         rrs = []
         for _ in range(c):
@@ -136,6 +137,15 @@ class DnsEnc(Suite):
                 else:
                     m = gen_msg(rng, nrec=rng.choice([40, 80]), big=True)
                 size = rng.choice([65535, 65536, 16384, 16500, 40000])
+            elif r < 0.2:
+                # truncation family: every section populated with distinct counts, limit anywhere between 512 and the
+                # full size so that the cut lands inside the answer, authority or additional section
+                counts = [rng.randrange(1, 9), rng.randrange(1, 12), rng.randrange(1, 30)]
+                m = gen_msg(rng, counts=counts)
+                est = 40 + 45 * sum(counts)
+                size = rng.randrange(512, max(514, est))
+                out.append("dnsenc size=%d %s" % (size, m))
+                continue
             else:
                 m = gen_msg(rng, wellformed=rng.random() < 0.9)
                 size = rng.choice([512, 512, 513, 600, 1232, 4096, 65535, 65536, rng.randrange(512, 3000)])
